@@ -262,6 +262,14 @@ fn main() {
         "440282366920938463463374607431768211456", "0.000000000000000001", "0.0000000000000000001", "99999999999999999999.999999999999999999", "1e", "1e+", "e5", "", " 1", "1_0", "\u{663}", "12345678", "1234567890123456789012345"] {
         for e in ["", "e0", "e5", "E-5", "e38", "e39", "e-19", "e005", "e99999999999"] { lits.push(format!("{}{}", body, e)); }
     }
+    // a foreign (non-ASCII / non-digit) byte at every offset of an 8-byte window of the chunk reader
+    for pos in 0..=17usize {
+        for f in ["\u{e9}", "\u{ff18}", "\u{663}", "x", "\u{ff}", ":", "/"] {
+            let ds = "12345678901234567";
+            lits.push(format!("{}{}{}", &ds[..pos], f, &ds[pos..]));
+            lits.push(format!("0.{}{}", &ds[..pos], f));
+        }
+    }
     for s in &lits {
         let inp = || format!("{:?}", s);
         emit!(c, "from_str", &inp, format!("{:?}", catch(|| Decimal::from_str(s).map(|d| (d.coefficient(), d.n_frac_digits())))));
